@@ -2,7 +2,8 @@
    as it stands on /repo main after the C15 repairs 5907a4c, 8b9f058, f9284a2, e53319d.
    One definition per Go function, same order of checks.  Library calls go through the call sites of
    the first section: each carries the library's precondition (Keystore/Prims.v) and is [Panic]
-   outside it.  A wallet file enters as the tree delivered by the encoding/json lexer ([json_parse]
+   outside it (for scrypt.Key this includes the allocation of its work area: [scrypt_alloc_ok]).
+   A wallet file enters as the tree delivered by the encoding/json lexer ([json_parse]
    of Prims.v); the typed decoding that encoding/json performs into the Go structs is modelled here
    (case-insensitive field match, members applied in document order so the last duplicate wins and
    nested structs merge, null leaves a field unchanged, wrong JSON kind is an error, custom
@@ -59,6 +60,7 @@ Definition reslice (g : gslice) (lo hi : nat) : res gslice :=
 Definition call_scrypt (P : prims) (pw salt : bytes) (N r p dklen : Z) : res gslice :=
   if negb (scrypt_dom r p dklen) then Panic
   else if negb (scrypt_params_ok N r p) then Err EScryptLib
+  else if negb (scrypt_alloc_ok N r) then Panic   (* make([]uint32, 32*N*r): makeslice: len out of range *)
   else Ok {| gs_data := scrypt P pw salt N r p dklen;
              gs_spare := skipn (Z.to_nat dklen) (scrypt_cap P pw salt N r p dklen) |}.
 
